@@ -194,7 +194,13 @@ class SunProp:
                 run.findings.append(Finding('oracle', f'{where} {msg}', rep, 'F9' if f9([t]) else None))
                 break
         # ---- oracle 2: one occurrence per solar day
-        if abs(c['lat']) < 60:
+        # an elevation target is reached on every day of the year only where the noon sun always climbs above it and the
+        # midnight sun always sinks below it (|lat| + 23.44 + |margin|): elsewhere days without the event are genuine
+        every_day = True
+        if c['param'] is not None:
+            e = c['param'][1]
+            every_day = abs(c['lat']) < 65.5 - e and abs(c['lat']) < 65.5 + e
+        if abs(c['lat']) < 60 and every_day:
             for a, b in zip(oks, oks[1:]):
                 gap = (b - a) / NS_HOUR
                 if not 23.5 <= gap <= 24.5:
